@@ -1,5 +1,6 @@
 import PlumpyModel.PM.Proof2
 import PlumpyModel.PM.LProof11
+import PlumpyModel.PM.LProof15
 /-!
 # C01 — state changes follow the lifecycle graph; terminal states are final
 
@@ -108,21 +109,74 @@ theorem C01_listener_terminal_transition_completes (F : Hook → LCfg → LCfg) 
     (transitionToL F l s).c.st = s ∨ (transitionToL F l s).c.st.label = .excepted :=
   transitionToL_terminal l s ht
 
-/-- NOT proved — **with the empty plan the model with listeners is the model**: the `…L` twins repeat the functions of
-`PM/Model.lean` with the oracle consulted at the notification points, so with no plan entry every event should have exactly the
-effect and return value it has in `PMF.step`.  A proof needs, besides one equation per twin, an invariant of the old model that its
-`runAction` relies on silently (a pending pause action that is run with a next state is still the pause alias: the real code's
-"retracted while transitioning" test, present in `runActionL`, never fires without listeners).  It is CHECKED instead: every case of
-the main stream of every process-control check is sent to both drivers (`pmodel pm`, `pmodel pml`) and the outputs must be identical
-(`harness/pm.py`, `explore`, stream `twin`). -/
+/-- **with the empty plan the model with listeners is the model** (the statement; proved below as
+`C01_listener_conservative_proved`): the `…L` twins repeat the functions of `PM/Model.lean` with the oracle consulted at the
+notification points, so with no plan entry every history leaves exactly the configuration it leaves in `PMF.run`. -/
 def C01_listener_conservative : Prop :=
   ∀ (P : Prog) (nf : Nat) (evs : List Ev), (runL P (initL nf []) evs).c = run P (init nf) evs
+
+/-- **conservativity of the model with listeners**: for every program, every number of awaited futures and every history of events,
+the run of the model with listeners under the EMPTY plan (no listener or state-event callback issues a request) carries exactly
+the configuration the original model `PMF.run` reaches — every field of `Cfg`: state object, action table, futures, logs, program
+counter of the stepping task.  The other fields of the `L` configuration are the oracle's bookkeeping (counters, the two flags).
+So every theorem proved about `runL` for all plans specialises to the original model, and the two models cannot drift apart
+silently.  (`PM/LProof14.lean`, `PM/LProof15.lean`; the model-vs-model "twin" stream of the harness checks the same thing on the
+compiled drivers.) -/
+theorem C01_listener_conservative_proved : C01_listener_conservative :=
+  fun P nf evs => runL_conservative P nf evs
+
+/-- … and every event (tick, control call, callback) returns the same value to its caller in both models, after every history. -/
+theorem C01_listener_conservative_returns (P : Prog) (nf : Nat) (evs : List Ev) (ev : Ev) :
+    (stepL P (runL P (initL nf []) evs) ev).2 = (step P (run P (init nf) evs) ev).2 :=
+  runL_conservative_ret P nf evs ev
+
+/-- **the invariant of the original model that conservativity rests on**: in every reachable configuration of `PM/Model.lean`, an
+interrupt action that is still pending and is a pause action is the one recorded in `_pausing`.  The real
+`CancellableAction.run` → `_do_pause(next_state)` returns early when `_pausing` was cleared during its own transition ("retracted
+while transitioning") and stores its result only if the action is still pending; the original `runAction` has neither test.
+Without listeners nothing runs during that transition, `play()` retracts a pending pause by CANCELLING it (a cancelled action is
+not run), and `_pausing` is cleared only there and when the pause is enacted — so both tests are unobservable, which is this
+invariant.  It is false for arbitrary configurations (`example` below): there the two models differ. -/
+theorem C01_pending_pause_is_recorded (P : Prog) (nf : Nat) (evs : List Ev) (i : Nat)
+    (hi : (run P (init nf) evs).interrupt = some i) (hp : actionStatus (run P (init nf) evs) i = .pending)
+    (hk : actionKind (run P (init nf) evs) i = some .pause) : (run P (init nf) evs).pausing = some i :=
+  run_pi P (init nf) evs (pi_init nf) i hi hp hk
+
+/-- … and the second fact conservativity needs, on the side of the model with listeners (any plan): between two events a step in
+progress is executing its state (`_stepping → _executing`), so `pause()` / `kill()` from the environment interrupt the state
+exactly when the original model (which looks at `_stepping`) does. -/
+theorem C01_listener_stepping_is_executing (P : Prog) (l : LCfg) (h : l.c.stepping = true → l.executing = true) :
+    (tickStepperL (fireN l.plan.length) P l).c.stepping = true → (tickStepperL (fireN l.plan.length) P l).executing = true :=
+  tickStepperL_ex P l h
 
 -- non-vacuity: a kill from `on_process_running` ends KILLED through legal edges; a late play on a process that was killed while
 -- paused notifies `on_process_played`, whose listener kills and pauses: nothing changes
 example : (runL sync2 (initL 0 [(.running, 1, .kill)]) [.tick]).c.entered = [.killed, .running, .created] := by decide +kernel
 example : (runL sync2 (initL 0 [(.played, 1, .kill), (.played, 2, .pause)]) [.pause, .kill, .play, .play, .tick]).c.st = .killed := by
   decide +kernel
+
+-- non-vacuity of conservativity: a history in which a pause requested during a step is retracted by `play()`, requested again and
+-- enacted with the next state (the branch of `runAction` / `runActionL` that differs); both models agree, and the invariant's
+-- hypotheses hold non-trivially in the middle of it
+section
+private def async1 : Prog := fun fn _ _ _ => if fn = 0 then ⟨1, .ret (.cont 1 [] [])⟩ else ⟨0, .ret (.stop (some 3) true)⟩
+example : let l := (runL async1 (initL 0 []) [.tick, .pause, .play, .pause, .tick]).c
+    let c := run async1 (init 0) [.tick, .pause, .play, .pause, .tick]
+    l.st = c.st ∧ l.paused = c.paused ∧ l.notif = c.notif ∧ l.pc = c.pc ∧ l.interrupt = c.interrupt ∧
+    c.st.label = .running ∧ c.paused = some 0 ∧ c.notif = [.paused, .running, .running] := by decide +kernel
+example : let c := run async1 (init 0) [.tick, .pause, .play, .pause]
+    c.interrupt = some 1 ∧ actionStatus c 1 = .pending ∧ actionKind c 1 = some .pause ∧ c.pausing = some 1 ∧
+    actionStatus c 0 = .cancelled := by decide +kernel
+-- with a non-empty plan the runs do differ (the empty plan is a real hypothesis): a kill from `on_process_running`
+example : (runL async1 (initL 0 [(.running, 1, .kill)]) [.tick]).c.st ≠ (run async1 (init 0) [.tick]).st := by decide +kernel
+-- outside the reachable configurations the invariant fails and the models differ: a pending pause action in the slot that is
+-- not recorded in `_pausing` pauses the process in `runAction`, while `runActionL` (like `_do_pause`) takes it for retracted
+private def odd : Cfg := { st := .running 1 [] [], stepping := true, actions := [⟨.pause, 0, .pending⟩], interrupt := some 0 }
+example : odd.interrupt = some 0 ∧ actionStatus odd 0 = .pending ∧ actionKind odd 0 = some .pause ∧ odd.pausing = none := by
+  decide +kernel
+example : (runActionL (fireN 0) { c := odd } 0 (some (.running 1 [] []))).c.paused = none ∧
+    (runAction odd 0 (some (.running 1 [] []))).paused = some 0 := by decide +kernel
+end
 
 end L
 
